@@ -224,5 +224,34 @@ pub fn builtin(r: &Report) {
 
 pub fn run(r: &Report) {
     builtin(r);
+    // Tag and IanaTag: the length of the bare tag head
+    {
+        let sub = "tags";
+        r.space(sub, true, "every IanaTag variant and Tag over the 64-bit boundary lattice: len() equals the bytes written", 1);
+        let mut n = 0u64;
+        let mut ok = 0u64;
+        for (t, num) in crate::c03::iana_tags() {
+            n += 1;
+            let written = minicbor::to_vec(t).map(|b| b.len()).unwrap_or(usize::MAX);
+            if minicbor::len(t) == written {
+                ok += 1;
+            } else {
+                r.fail(sub, None, json!({"type": "IanaTag", "value": format!("{:?}", t), "registered_number": num}), format!("len() = {} but the encoder writes {} bytes", minicbor::len(t), written));
+            }
+        }
+        for num in refmodel::enumerate::lattice64() {
+            n += 1;
+            let t = minicbor::data::Tag::new(num);
+            let written = minicbor::to_vec(t).map(|b| b.len()).unwrap_or(usize::MAX);
+            if minicbor::len(t) == written {
+                ok += 1;
+            } else {
+                r.fail(sub, None, json!({"type": "Tag", "value": num}), format!("len() = {} but the encoder writes {} bytes", minicbor::len(t), written));
+            }
+        }
+        r.add(sub, n, ok);
+        r.outcome(sub, "tags", n);
+        r.sample(sub, json!({"type": "IanaTag", "value": "MultiDimArrayC", "len": 3}));
+    }
     crate::derive_checks::c07(r);
 }
